@@ -96,6 +96,17 @@ CHECKS["C02"] = dict(
     design_ref="DESIGN.md §5 C02",
     note="Trusted: Coq kernel; regex translator tools/translate_markers.py; python oracle for entity ownership of PSLG segments; validator as in C01.",
     technique="Coq proof of the codec on constants regenerated from source + LoadMesh differential runs + verified mesh validator")
+CHECKS["C18"] = dict(
+    category="proof",
+    text=("Coq theorems about a model of fmesher's own subdivision code (Discretize.v): part counts are ceilings, parts of a "
+          "line are no longer than its spacing, a line/arc cut into np parts becomes exactly np sub-segments/chords forming a "
+          "chain (all np), chord end points lie on the arc's circle. The model's binary64 reading reproduces the PSLG written "
+          "by the real `fmesher --write-poly` bit for bit (points and segments) on generated geometries. Triangle's refinement "
+          "is validated per mesh with exact rational arithmetic: element area <= pi d^2/4 of its label, mesh edges on a line "
+          "<= its spacing, chord count per arc, minimum angle on geometries without acute input angles."),
+    design_ref="DESIGN.md §5 C18",
+    note="Trusted: Coq kernel + Reals axioms; libm sin/cos values and ceil results are model inputs (ceil re-validated in the model); exact checks in python Fractions.",
+    technique="Coq proof over a hand-written subdivision model + bit-exact PSLG correspondence + exact per-mesh size validation")
 PENDING = {}
 def main():
     props = [json.loads(l) for l in open(os.path.join(V, "properties.jsonl"))]
